@@ -17,7 +17,9 @@ import (
 	"context"
 	"fmt"
 	"math"
+	"os"
 	"runtime"
+	"strconv"
 	"sync"
 	"sync/atomic"
 	"time"
@@ -222,6 +224,7 @@ func (e *env) runStorm(ctx context.Context, op Op, st *stormStats) (answers []an
 		if running.Load() {
 			during.Add(1)
 		}
+
 		switch it.Kind {
 		case "event":
 			e.block(blockEvent(it.Root, it.Slot))
@@ -234,6 +237,16 @@ func (e *env) runStorm(ctx context.Context, op Op, st *stormStats) (answers []an
 			mu.Unlock()
 		}
 	}
+	// Busy-waiting, not runtime.Gosched: a goroutine that yields is put on the global run queue and is
+	// as a rule picked up by a thread that has to be woken first, tens of microseconds later -- longer
+	// than the job lasts.  Yield only when there are not enough processors for everybody to spin.
+	yieldAfter := math.MaxInt
+	if runtime.GOMAXPROCS(0) < len(op.Workers)+2 {
+		yieldAfter = 2000
+	}
+	if v := os.Getenv("C18_YIELD_AFTER"); v != "" {
+		yieldAfter, _ = strconv.Atoi(v)
+	}
 	for w := range op.Workers {
 		wg.Add(1)
 		go func() {
@@ -245,7 +258,7 @@ func (e *env) runStorm(ctx context.Context, op Op, st *stormStats) (answers []an
 				it := &items[i]
 				if i == 0 || !it.More {
 					progress[w].Store(last) // the batch of run `last` is done
-					for {
+					for n := 0; ; n++ {
 						if g := gen.Load(); g != last {
 							last = g
 							break
@@ -253,7 +266,9 @@ func (e *env) runStorm(ctx context.Context, op Op, st *stormStats) (answers []an
 						if fin.Load() {
 							break
 						}
-						runtime.Gosched()
+						if n > yieldAfter {
+							runtime.Gosched()
+						}
 					}
 				}
 				spin(it.Spin)
@@ -268,12 +283,14 @@ func (e *env) runStorm(ctx context.Context, op Op, st *stormStats) (answers []an
 		e.cleanJob(ctx)
 		running.Store(false)
 		for w := range progress {
-			for progress[w].Load() < k {
-				if time.Now().After(watchdog) {
+			for n := 1; progress[w].Load() < k; n++ {
+				if n%4096 == 0 && time.Now().After(watchdog) {
 					hung = true
 					break
 				}
-				runtime.Gosched()
+				if n > yieldAfter {
+					runtime.Gosched()
+				}
 			}
 		}
 	}
@@ -299,7 +316,7 @@ func (e *env) runStorm(ctx context.Context, op Op, st *stormStats) (answers []an
 // generator
 
 // which storm family (if any) the i-th generated history of a run belongs to: per 1000 histories
-// twenty small ones (map of 10-100 entries) and four big ones (300-750 entries)
+// twenty small ones (map of 20-190 entries before the storm) and four big ones (300-750 entries)
 func stormClassOf(i int) string {
 	switch {
 	case i%250 == 113:
@@ -323,7 +340,7 @@ func genStorm(r *Rand, class string) History {
 		w = (epoch - 64) * spe
 	}
 	big := class == "big"
-	nOld, nIn, maxSpin := r.Range(0, 20), r.Range(10, 80), 4000
+	nOld, nIn, maxSpin := r.Range(0, 30), r.Range(20, 160), 3000
 	if big {
 		nOld, nIn, maxSpin = r.Range(0, 150), r.Range(300, 600), 30000
 	}
@@ -403,7 +420,7 @@ func genStorm(r *Rand, class string) History {
 			}
 			for b := 0; b < nb; b++ {
 				cnt := 1
-				for cnt < 3 && r.Chance(1, 4) {
+				for cnt < 4 && r.Chance(1, 3) {
 					cnt++
 				}
 				for j := 0; j < cnt; j++ {
